@@ -49,13 +49,22 @@ type SnapCfg struct {
 	Resume        bool
 	BufSize       int
 	Left          int64
-	Latency       bool // the scheduler may let virtual time pass during the replay
-	OlderTarget   bool // the target may be too old for some value types of the snapshot (RESTORE refused -> fallback)
+	Latency       bool   // the scheduler may let virtual time pass during the replay
+	OlderTarget   bool   // the target may be too old for some value types of the snapshot (RESTORE refused -> fallback)
+	KeyExists     string // replace (default, "") | ignore | error  (C20)
+	Bisync        bool   // bidirectional replay: every entry becomes a marker+commands transaction (C20/C04)
 }
 
 func (c SnapCfg) String() string {
-	return fmt.Sprintf("target=%s restore=%v maxbulk=%d parallel=%d pipe=%d chunk=%d targetDb=%d map=%v resume=%v buf=%d latency=%v",
+	s := fmt.Sprintf("target=%s restore=%v maxbulk=%d parallel=%d pipe=%d chunk=%d targetDb=%d map=%v resume=%v buf=%d latency=%v",
 		c.TargetVersion, c.Restore, c.MaxBulk, c.Parallel, c.PipeSize, c.ChunkAt, c.DBM.TargetDb, c.DBM.TargetDbMap, c.Resume, c.BufSize, c.Latency)
+	if c.KeyExists != "" {
+		s += " keyExists=" + c.KeyExists
+	}
+	if c.Bisync {
+		s += " bisync"
+	}
+	return s
 }
 
 func (c SnapCfg) mapDB(src int) int {
@@ -168,13 +177,20 @@ func verGE(v string, maj, min int) bool {
 }
 
 func (c SnapCfg) outputConfig(runID, cpName string) syncer.RedisOutputConfig {
-	oc := PipeCfg{BatchCount: 10, BatchBytes: 65536, BatchTicker: 10 * time.Millisecond, Keepalive: time.Second,
-		CpTicker: time.Second, Resume: c.Resume, DBM: c.DBM}.outputConfig(runID, cpName)
+	pc := PipeCfg{BatchCount: 10, BatchBytes: 65536, BatchTicker: 10 * time.Millisecond, Keepalive: time.Second,
+		CpTicker: time.Second, Resume: c.Resume, DBM: c.DBM}
+	if c.Bisync {
+		pc.Bisync, pc.Mode, pc.Parallelism = true, "sync", 1
+	}
+	oc := pc.outputConfig(runID, cpName)
 	oc.Redis.Version = c.TargetVersion
 	oc.ReplayRdbParallel = c.Parallel
 	oc.ReplayRdbEnableRestore = c.Restore
 	oc.MaxProtoBulkLen = c.MaxBulk
 	oc.KeyExists = "replace"
+	if c.KeyExists != "" {
+		oc.KeyExists = c.KeyExists
+	}
 	return oc
 }
 
@@ -243,6 +259,23 @@ type SnapSim struct {
 
 	bodyOf map[*rdbgen.Key][]byte
 
+	// hooks of the harnesses built on top (C20, C04)
+	skipKey    func(id string) bool           // snapshot keys ("db/name" on the target) exempt from compare()
+	extraOK    func(db int, name string) bool // target keys that are allowed although no snapshot key maps to them
+	note       func(id string) string         // appended to the replay path named in signatures
+	feedSrc    []byte                         // bytes actually fed (default: the whole snapshot)
+	feedErr    error                          // if set: the reader fails with it once feedSrc is exhausted
+	onStep     func() (stop bool)             // called at every quiescent point of run()
+	stuckLimit time.Duration                  // virtual time run() waits for a silent Send (default 120 s)
+	panicked   any                            // a panic that escaped Send
+	feedEnd    bool                           // the source ends (feedErr, or io.EOF if nil) once feedSrc is exhausted
+	quiet      bool                           // violation() builds the value without logging it (used as a completeness probe)
+	greedy     bool                           // run() takes no scheduling decisions: execute what is pending (in bursts), else feed everything
+	coarse     bool                           // signatures name the replay path only, not the value's encoding (C20)
+	errAt      int                            // >0: the errAt-th request of the replay is answered errText (C04); see stepInject
+	errText    string
+	reqCount   int
+
 	pipe   *feedPipe
 	fed    int
 	cancel context.CancelFunc
@@ -266,6 +299,10 @@ func NewSnapSim(r *Run, prop string, cfg SnapCfg, ds *rdbgen.Dataset) *SnapSim {
 	r.Net.Listen(simTargetAddr, ss.srv)
 	ss.runID = "5f3c0a9e1b2d4c6f8a7b9c0d1e2f3a4b5c6d7e8f"
 	ss.cpName = "redis-gunyu-checkpoint-sim"
+	if cfg.Bisync {
+		ss.cpName = "redis-gunyu-checkpoint-bisync:5a5a5a5a5a5a5a5a5a5a5a5a"
+	}
+	ss.feedSrc = ss.rdb
 	for name := range ss.info.Stats {
 		if strings.HasPrefix(name, "len") || name == "str-raw" {
 			continue
@@ -303,23 +340,39 @@ func (ss *SnapSim) start() (restore func()) {
 	rd.br = bufio.NewReaderSize(ss.pipe, ss.cfg.BufSize)
 	ss.t0 = time.Now()
 	go func() {
-		err := ro.Send(ctx, rd)
-		ss.mu.Lock()
-		ss.done, ss.err = true, err
-		ss.mu.Unlock()
+		var err error
+		defer func() {
+			x := recover()
+			ss.mu.Lock()
+			if x != nil {
+				ss.panicked = x
+				err = fmt.Errorf("panic escaped Send: %v", x)
+			}
+			ss.done, ss.err = true, err
+			ss.mu.Unlock()
+		}()
+		err = ro.Send(ctx, rd)
 	}()
 	return restore
 }
 
-func (ss *SnapSim) remaining() int { return len(ss.rdb) - ss.fed }
+func (ss *SnapSim) remaining() int { return len(ss.feedSrc) - ss.fed }
 
 func (ss *SnapSim) feed(n int) {
 	if n > ss.remaining() {
 		n = ss.remaining()
 	}
-	ss.pipe.Feed(ss.rdb[ss.fed : ss.fed+n])
+	// log first, then apply: the tool's reaction may log (connections closed) and must come after
+	ss.r.Logf("feed %d bytes -> %d/%d", n, ss.fed+n, len(ss.feedSrc))
+	ends := ss.fed+n == len(ss.feedSrc) && (ss.feedErr != nil || ss.feedEnd)
+	if ends {
+		ss.r.Logf("source ends: %v", ss.feedErr)
+	}
+	ss.pipe.Feed(ss.feedSrc[ss.fed : ss.fed+n])
 	ss.fed += n
-	ss.r.Logf("feed %d bytes -> %d/%d", n, ss.fed, len(ss.rdb))
+	if ends {
+		ss.pipe.CloseWith(ss.feedErr)
+	}
 }
 
 func (ss *SnapSim) chooseFeed() int {
@@ -389,6 +442,12 @@ func (ss *SnapSim) readyClasses() []*sessClass {
 			if len(args) > 0 {
 				name = strings.ToLower(string(args[0]))
 			}
+			if s.InMulti && name == "exec" {
+				// what an EXEC does depends on what the connection has queued: part of the class identity
+				for _, q := range s.Queue {
+					key += "\x00" + string(resp.EncodeCommand(q...))
+				}
+			}
 		}
 		cl := byKey[key]
 		if cl == nil {
@@ -426,8 +485,13 @@ func (ss *SnapSim) readyClasses() []*sessClass {
 // any reply is released makes the outcome independent of their order.
 func (ss *SnapSim) execClass(cl *sessClass) {
 	ss.srv.AutoDeliver = false
+	// fault injection: if the request to fail is one of this class, every member is failed: which member
+	// belongs to which replay worker is not observable, failing one of several identical requests would
+	// make the outcome depend on the Go scheduler
+	inject := ss.errAt > ss.reqCount && ss.errAt <= ss.reqCount+len(cl.sess)
+	ss.reqCount += len(cl.sess)
 	for _, s := range cl.sess {
-		ss.srv.Step(s)
+		ss.stepInject(s, inject)
 	}
 	ss.srv.AutoDeliver = true
 	for _, s := range cl.sess {
@@ -435,10 +499,27 @@ func (ss *SnapSim) execClass(cl *sessClass) {
 	}
 }
 
+// stepInject executes the oldest request of s; with inject the target answers errText instead.
+func (ss *SnapSim) stepInject(s *simredis.Session, inject bool) {
+	if !inject {
+		ss.srv.Step(s)
+		return
+	}
+	ss.r.W.Fault("target-error")
+	old := ss.srv.Intercept
+	ss.srv.Intercept = func(*simredis.Session, string, [][]byte) *resp.Value {
+		v := resp.Err(ss.errText)
+		return &v
+	}
+	ss.srv.Step(s)
+	ss.srv.Intercept = old
+}
+
 func (ss *SnapSim) execN(s *simredis.Session, n int) {
 	ss.srv.AutoDeliver = false
 	for i := 0; i < n; i++ {
-		ss.srv.Step(s)
+		ss.reqCount++
+		ss.stepInject(s, ss.reqCount == ss.errAt)
 	}
 	ss.srv.AutoDeliver = true
 	ss.srv.DeliverOutbox(s)
@@ -456,23 +537,77 @@ func (ss *SnapSim) drainPending(max int) {
 	}
 }
 
+// pendingUpTo counts the complete requests waiting on a session, up to max (a damaged snapshot can make
+// the tool pipeline tens of thousands of requests: counting them all at every step would be quadratic).
+func pendingUpTo(s *simredis.Session, max int) int {
+	buf := s.Conn.Pending()
+	n := 0
+	for n < max {
+		_, m, ok, err := resp.ParseRequest(buf)
+		if !ok || err != nil {
+			break
+		}
+		n++
+		buf = buf[m:]
+	}
+	return n
+}
+
 // run drives the replay to completion. Returns false when the step cap was hit.
 func (ss *SnapSim) run() bool {
 	r := ss.r
 	stuck := time.Duration(0)
-	for r.BeginStep() {
+	// settleThenBegin: the reaction to the previous action must be over before the next step's salt
+	// (order of ready select cases inside the tool) is published, otherwise a goroutine that reaches a
+	// select late would see the next step's salt
+	settleThenBegin := func() bool { r.Settle(); return r.BeginStep() }
+	for settleThenBegin() {
 		r.Settle()
 		if d, _ := ss.isDone(); d {
 			return true
+		}
+		if ss.onStep != nil && ss.onStep() {
+			return true
+		}
+		if ss.greedy {
+			if cls := ss.readyClasses(); len(cls) > 0 {
+				if n := pendingUpTo(cls[0].sess[0], 160); len(cls[0].sess) == 1 && n > 1 {
+					r.Logf("greedy: burst of %d %s...", n, cls[0].name)
+					ss.execN(cls[0].sess[0], n)
+				} else {
+					r.Logf("greedy: exec %s x%d", cls[0].name, len(cls[0].sess))
+					ss.execClass(cls[0])
+				}
+				stuck = 0
+				continue
+			}
+			if ss.remaining() > 0 {
+				// one record at a time: the tool is not confluent when an entry and a cancellation (parse
+				// error further on) reach a worker in the same reaction
+				n := ss.remaining()
+				for _, ki := range ss.info.Keys {
+					if ki.Start > ss.fed {
+						n = ki.Start - ss.fed
+						break
+					}
+					if ki.End > ss.fed {
+						n = ki.End - ss.fed
+						break
+					}
+				}
+				ss.feed(n)
+				stuck = 0
+				continue
+			}
 		}
 		var acts []pipeAction
 		for _, cl := range ss.readyClasses() {
 			cl := cl
 			acts = append(acts, pipeAction{fmt.Sprintf("exec %s x%d", cl.name, len(cl.sess)), 10, func() { ss.execClass(cl) }})
-			if len(cl.sess) == 1 && ss.srv.PendingCount(cl.sess[0]) > 1 {
+			if pending := pendingUpTo(cl.sess[0], 160); len(cl.sess) == 1 && pending > 1 {
 				s := cl.sess[0]
-				pending := ss.srv.PendingCount(s) // counted now, at quiescence: what the client sends while
-				// the burst is executed belongs to later steps
+				// pending is counted now, at quiescence: what the client sends while the burst is executed
+				// belongs to later steps
 				acts = append(acts, pipeAction{fmt.Sprintf("execmany %s", cl.name), 6, func() {
 					k := 2 + r.Sched().Choose("execmany", 150)
 					if k > pending {
@@ -495,7 +630,11 @@ func (ss *SnapSim) run() bool {
 		}
 		if len(acts) == 0 {
 			// everything fed, nothing pending, Send still running: only timers can move it
-			if stuck >= 120*time.Second {
+			limit := ss.stuckLimit
+			if limit == 0 {
+				limit = 120 * time.Second
+			}
+			if stuck >= limit {
 				return true
 			}
 			stuck += 100 * time.Millisecond
@@ -510,6 +649,7 @@ func (ss *SnapSim) run() bool {
 		a := acts[r.Sched().Weighted("act", w)]
 		r.Logf("step %d: %s", r.W.Step(), a.label)
 		a.do()
+		stuck = 0
 	}
 	return false
 }
@@ -564,8 +704,13 @@ func errClass(s string) string {
 }
 
 func (ss *SnapSim) violation(rule, sig, format string, a ...any) *Violation {
+	if strings.HasPrefix(rule, "C03.") && ss.prop != "C03" {
+		rule = ss.prop + rule[3:] // the snapshot comparison shared with C20/C04 reports under their id
+	}
 	v := &Violation{Property: ss.prop, Rule: rule, Sig: sig, Msg: fmt.Sprintf(format, a...)}
-	ss.r.Logf("VIOLATION %s: %s", rule, v.Msg)
+	if !ss.quiet {
+		ss.r.Logf("VIOLATION %s: %s", rule, v.Msg)
+	}
 	return v
 }
 
@@ -598,6 +743,9 @@ func encFlags(k *rdbgen.Key) string {
 // feature names the input feature of a key that a signature mentions: the container encoding, plus the
 // "unknown length" header variant for ziplists.
 func (ss *SnapSim) feature(k *rdbgen.Key, path string) string {
+	if ss.coarse {
+		return "via " + path
+	}
 	f := rdbgen.TypeName(k.Enc.Type)
 	if k.Enc.ZlUnknownLen {
 		f = "ziplist whose length field is 0xFFFF"
@@ -813,6 +961,9 @@ func (ss *SnapSim) compare(elapsed time.Duration, tEnd int64) *Violation {
 		tdb := ss.cfg.mapDB(k.DB)
 		id := fmt.Sprintf("%d/%s", tdb, k.Name)
 		expKeys[id] = true
+		if ss.skipKey != nil && ss.skipKey(id) {
+			continue
+		}
 		path := "native commands"
 		if restored[id] {
 			path = "RESTORE"
@@ -826,19 +977,14 @@ func (ss *SnapSim) compare(elapsed time.Duration, tEnd int64) *Violation {
 			}
 			return ss.violation("C03.missing", "key missing on target ("+ss.feature(k, path)+")", "key %s%s (source db %d -> target db %d) is not on the target after the replay completed (expiry %d, now %d)", k.Describe(), encFlags(k), k.DB, tdb, E, tEnd+1)
 		}
-		if E != 0 && E > tEnd-L && E <= tEnd+1 && o.ExpireAt >= E && o.ExpireAt <= E+L {
-			// the key's expiry passed WHILE the snapshot was being replayed (virtual latency between the chunks of
-			// one value): the part replayed before it is gone, the part replayed after it re-created the key with a
-			// relative TTL, i.e. an expiry within the tolerated shift (+0..L, see the expiry rule below). For a client
-			// the key is gone or about to go, as on the source; its momentary content is not judged.
-			simrt.Probe("c03_expired_during_replay")
-			continue
-		}
 		if o.T != byte(k.Val.Kind) {
 			return ss.violation("C03.type", "type differs ("+enc+" via "+path+")", "key %s%s: target type %s, snapshot type %s", k.Describe(), encFlags(k), o.TypeName(), k.Val.Kind)
 		}
 		if refused[id] {
 			path = "native commands after the target refused the RESTORE payload's value type"
+		}
+		if ss.note != nil {
+			path += ss.note(id)
 		}
 		how := path
 		if ss.cfg.ChunkAt > 0 && k.Enc.Type == rdbgen.THash && len(ss.bodyOf[k]) > ss.cfg.ChunkAt {
@@ -872,7 +1018,7 @@ func (ss *SnapSim) compare(elapsed time.Duration, tEnd int64) *Violation {
 			if simredis.IsReservedKey([]byte(name)) {
 				continue
 			}
-			if !expKeys[fmt.Sprintf("%d/%s", db, name)] {
+			if !expKeys[fmt.Sprintf("%d/%s", db, name)] && !(ss.extraOK != nil && ss.extraOK(db, name)) {
 				return ss.violation("C03.extra", "key on target that the snapshot does not contain", "target db %d holds key %q (%s) which no snapshot key maps to", db, name, ss.srv.Get(db, name).TypeName())
 			}
 		}
